@@ -240,6 +240,7 @@ UF = {
     'pow2': z3.Function('pow2', I, I),
     'powr': z3.Function('powr', R, R, R),
     'atan2': z3.Function('atan2', R, R, R),
+    'fftfreq': z3.Function('fftfreq', I, I, R),
 }
 PI = z3.Real('pi')
 
